@@ -5,9 +5,11 @@
      (function naming, main-vs-library classification, pseudo-address table) and the part of
      libmcount's __cygprof_entry/__cygprof_exit that pairs the hook calls (shadow stack).
 
-   The code is modelled AS IT IS.  [c_fixed cfg = false] is the code of the pinned tree;
-   [c_fixed cfg = true] is the code with proposed-fixes/C19-1.diff applied (exit of an opt-out
-   match is skipped before the opt-in test).
+   The code is modelled AS IT IS: [c_fixed cfg = true] (what [mkcfg _ _ true] builds and what every
+   checker uses) is apply_filters with the exit of an opt-out match skipped before the opt-in test
+   (fix 5445264), and [depth_guard] is the call-depth test of uftrace_trace_python (fix d27b480).
+   [c_fixed cfg = false] / no depth guard is the code before these repairs, kept only for the
+   `..._legacy_refuted` witnesses.
 
    C `int` counters are modelled by Z (no wrap: fewer than 2^31 nested calls).
    Executable definitions only - no proofs in this file.                                    *)
@@ -100,7 +102,7 @@ Record cfg := {
   c_fmode : option fmode;          (* filter_state.mode; None = FILTER_MODE_NONE *)
   c_filters : list filter;
   c_lib : libmode;
-  c_fixed : bool                   (* false: pinned tree; true: with the proposed repair *)
+  c_fixed : bool                   (* true: current code; false: code before fix 5445264 (legacy witnesses) *)
 }.
 
 Definition mkcfg (env : option (list name)) (m : libmode) (fixed : bool) : cfg :=
@@ -246,7 +248,7 @@ Fixpoint hooks_of (f : forest) : list hook :=
   | FNode b kids rest => HEnter (l_sym b) :: hooks_of kids ++ HExit :: hooks_of rest
   end.
 
-(* the guard under which the pinned code meets the specification: no opt-out match is entered
+(* the guard under which the code before fix 5445264 met the specification: no opt-out match is entered
    while opt-in mode is active, an opt-in match is open and no other opt-out match is open *)
 Fixpoint nobad (c : cfg) (ci co : Z) (f : forest) : bool :=
   match f with
@@ -535,8 +537,9 @@ Definition case_events (k : case) : list fevent :=
   flat_map (ievents (k_funcs k)) (k_forests k)
   ++ map (fun p => {| fe_kind := fst p; fe_func := nth (snd p) (k_funcs k) dummy_func |}) (k_raw k).
 
-(* proposed-fixes/C19-2.diff: a `return` whose `call` was never seen is ignored before anything else
-   happens (a pure pre-filter of the event stream; identity on well-formed streams) *)
+(* uftrace_trace_python, py_depth: a `return` whose `call` was never seen (frames entered before
+   sys.setprofile, e.g. runpy when the script ends by sys.exit()) is ignored before anything else
+   happens.  py_depth depends on the event kinds only, so the test is a pre-filter of the stream. *)
 Fixpoint depth_guard (d : nat) (evs : list fevent) : list fevent :=
   match evs with
   | [] => []
@@ -548,13 +551,15 @@ Fixpoint depth_guard (d : nat) (evs : list fevent) : list fevent :=
       end
   end.
 
-(* correspondence: model automaton + address table vs implementation
-   (fixed: C19-1.diff applied; fixed2: C19-2.diff applied) *)
-Definition agrees (fixed fixed2 : bool) (k : case) : bool :=
-  let c := mkcfg (k_env k) (k_lib k) fixed in
+(* the whole callback on a stream of interpreter events, from module initialisation *)
+Definition trace_python (c : cfg) (md : option name) (evs : list fevent) : list sym * st * list ahook :=
+  arun c md [] st0 (depth_guard O evs).
+
+(* correspondence: model automaton + address table vs implementation *)
+Definition agrees (k : case) : bool :=
+  let c := mkcfg (k_env k) (k_lib k) true in
   let md := option_map main_dir_of (k_pymain k) in
-  let evs := if fixed2 then depth_guard O (case_events k) else case_events k in
-  let '(tab, _, hs) := arun c md [] st0 evs in
+  let '(tab, _, hs) := trace_python c md (case_events k) in
   list_eqb ahook_eqb hs (map ahook_of (k_hooks k)) && list_eqb sym_eqb tab (k_symtab k).
 
 (* property checker on the implementation's output for a well-formed case (k_raw = []): the hook
@@ -576,12 +581,6 @@ Definition ok_case (k : case) : bool :=
 (* weaker, specification-free part of the property: balanced hook calls *)
 Definition ok_balanced (k : case) : bool :=
   balanced (map (fun h => match h with KE _ => HEnter {| s_name := []; s_lib := false |} | KX => HExit end) (k_hooks k)).
-
-(* is the case inside the known-defect class of the pinned code? *)
-Definition in_defect_class (k : case) : bool :=
-  let c := mkcfg (k_env k) (k_lib k) false in
-  let md := option_map main_dir_of (k_pymain k) in
-  negb (forallb (nobad c 0 0) (map (iforest_syms md (k_funcs k)) (k_forests k))).
 
 Fixpoint bad_indices {A} (f : A -> bool) (l : list A) (i : nat) : list nat :=
   match l with
@@ -658,10 +657,8 @@ Definition e_ok (k : ecase) : bool :=
   nforest_eqb (names_of (trim_open (select (mkcfg (x_env k) (x_lib k) true) 0 0 0 (iforest_labs (x_tab k) (x_log k)))))
               (x_replay k).
 (* correspondence: the model automaton + shadow stack produce the same entries as the real run *)
-Definition e_agrees (fixed : bool) (k : ecase) : bool :=
-  let c := mkcfg (x_env k) (x_lib k) fixed in
+Definition e_agrees (k : ecase) : bool :=
+  let c := mkcfg (x_env k) (x_lib k) true in
   let '(_, recs, _) := mc_run [] (snd (run c st0 (events (iforest_labs (x_tab k) (x_log k))))) in
   if x_open k then prefix_eqb dn_eqb (nentries O (x_replay k)) (rec_entries recs)
   else list_eqb dn_eqb (rec_entries recs) (nentries O (x_replay k)).
-Definition e_in_defect_class (k : ecase) : bool :=
-  negb (nobad (mkcfg (x_env k) (x_lib k) false) 0 0 (iforest_labs (x_tab k) (x_log k))).
